@@ -42,6 +42,8 @@ CONSTANTS
   \* ---- (i) Bidirectional
   MaxSend,       \* number of payload units each endpoint may send
   EofWithData,   \* BOOLEAN: a Read may return its last bytes together with io.EOF
+  ShapesA, ShapesB, \* conn shapes of the local side / the tunnel side (cfg: <- LocalShapes / AllShapes ...)
+  DevCloseWriterFallback, \* seeded fault: the adapter's CloseWrite closes a Writer that is only an io.Closer
   \* ---- (ii) UDP
   Classes,       \* datagram size classes = model sizes (1, 2, 3 ~ "255", 4 ~ "65535")
   MaxT, MaxU,    \* at most MaxT datagrams tunnel->UDP and MaxU datagrams UDP->tunnel
@@ -53,6 +55,12 @@ CONSTANTS
   BatchBuf,      \* batchBufSize of the batching writer (256 KiB in the code; scaled to model sizes)
   High,          \* refill threshold of readBuf (256 KiB in the code): larger than any modelled stream
   DevSpin, DevNoUnblock, DevAliasFlush,
+  SockQueue,     \* TRUE: the UDP side is a mapping.UDPVirtualConn: Write queues the datagram (writeChan), a
+                 \* separate goroutine (writeLoop) sends it on the socket later
+  DevQueueRefs,  \* seeded fault C12/r2m2 (not in the code): the queue keeps the slice it was given - a
+                 \* REFERENCE into the relay's readBuf - instead of a copy
+  DevDropOnClose, \* the code as found before C12-3: writeLoop returns as soon as the conn is closed and
+                 \* abandons what is still queued (ghost devDropped)
   \* ---- generation
   Emit           \* TRUE: print behaviours ("BEH {json}")
 
@@ -61,7 +69,7 @@ Out(x) == IF Emit THEN PrintT("BEH " \o ToJson(x)) ELSE TRUE
 
 VARIABLES
   \* (i)
-  cw,      \* [end -> BOOLEAN]: tryCloseWrite finds a CloseWrite on that conn (fixed per behaviour)
+  shape,   \* [end -> shape of the conn handed to the relay] (fixed per behaviour), see AllShapes
   ep,      \* [end -> [sent, wr, rd, got, eofSeen]]  endpoint state
   cp,      \* [dir -> [pc, off, n, rerr, werr]]      copier goroutines
   bmain,   \* "wait" | "returned"
@@ -70,7 +78,10 @@ VARIABLES
   \* (ii)
   par,     \* behaviour parameters [t, u, cut, how, chunk, pace]
   tpos,    \* bytes of the encoded stream handed to g2 so far
-  g2,      \* [pc, buf, processed, pending, rerr, ended, cont]  pending = <<offset, length>> references into buf (zero copy)
+  g2,      \* [pc, buf, stale, processed, pending, rerr, ended, cont]  pending = <<offset, length>> references into
+           \* readBuf (zero copy); buf = readBuf[:buffered], stale = the bytes of readBuf behind it (kept only
+           \* when something can still look at them: DevQueueRefs)
+  wq,      \* UDPVirtualConn.writeChan: queued datagrams [o, n, data]
   udpGot,  \* datagrams written to the UDP socket, in order
   g1,      \* [pc, mem, pos, dg, serr]  mem = bytes of batchBuf, pos = batchPos
   lock,    \* batchMu: "free" | "g1" | "timer"
@@ -82,12 +93,12 @@ VARIABLES
   sockClosed, \* UDP socket closed (reads on it fail)
   tunHalfClosed,
   umain,   \* "wait" | "returned"
-  devSpin, devBlocked, devAlias
+  devSpin, devBlocked, devAlias, devDropped
 
-bvars == <<cw, ep, cp, bmain, rclosed, bhist>>
-uvars == <<par, tpos, g2, udpGot, g1, lock, tw, usent, upos, tunGot, timerOn, sockClosed, tunHalfClosed, umain, devSpin, devBlocked, devAlias>>
+bvars == <<shape, ep, cp, bmain, rclosed, bhist>>
+uvars == <<par, tpos, g2, wq, udpGot, g1, lock, tw, usent, upos, tunGot, timerOn, sockClosed, tunHalfClosed, umain, devSpin, devBlocked, devAlias, devDropped>>
 vars  == <<bvars, uvars>>
-bview == <<cw, ep, cp, bmain, rclosed, uvars>>   \* VIEW of the generation cfg: everything but bhist
+bview == <<shape, ep, cp, bmain, rclosed, uvars>>   \* VIEW of the generation cfg: everything but bhist
 
 (*********************************************************************************************)
 (* (i) Bidirectional                                                                         *)
@@ -97,12 +108,36 @@ Dirs == {"AB", "BA"}
 Src(d) == IF d = "AB" THEN "A" ELSE "B"
 Dst(d) == IF d = "AB" THEN "B" ELSE "A"
 
-BIdle == /\ cw \in [Ends -> BOOLEAN]
+\* ---- endpoint shapes: what tryCloseWrite(conn) can reach --------------------------------------
+\* "<wrap>-<cap>":  wrap = direct (the conn object itself is handed to the relay: local TCP/UDP
+\*   socket, scripted conn) | same (one full-duplex object is Reader AND Writer of the
+\*   iocopy.NewReadWriteCloser adapter - what base.go / target_handler.go / socks5_tunnel.go build
+\*   around the tunnel) | split (separate reader and writer objects inside the adapter);
+\*   cap = what the (writer) object offers: cw (CloseWrite) | closer (Close only) | none
+AllShapes == {"direct-cw", "direct-closer", "same-cw", "same-closer", "same-none", "split-cw", "split-closer", "split-none"}
+LocalShapes == {"direct-cw", "direct-closer"}
+TwoShapes == {"direct-cw", "same-closer"}
+\* effect of tryCloseWrite(conn) on a conn of that shape:
+\*   "eof"  - the peer of that conn sees end-of-stream, its other direction is untouched
+\*   "none" - nothing (the final Close does it)
+\*   "kill" - the whole conn is closed, both directions die          (DevCloseWriterFallback only)
+\* the code: *net.TCPConn / CloseWriter -> CloseWrite(); adapter.CloseWrite forwards to a Writer
+\* that has CloseWrite, otherwise does nothing.
+\* DevCloseWriterFallback (seeded fault C12/r2m3, not in the code): the adapter Close()s a Writer
+\* that is an io.Closer - for a separate writer object that is its end-of-stream, for ONE
+\* full-duplex object behind Reader and Writer it closes the tunnel conn under the reverse direction
+Effect(sh) == IF sh \in {"direct-cw", "same-cw", "split-cw"} THEN "eof"
+              ELSE IF DevCloseWriterFallback /\ sh = "split-closer" THEN "eof"
+              ELSE IF DevCloseWriterFallback /\ sh = "same-closer" THEN "kill"
+              ELSE "none"
+Cw(e) == Effect(shape[e]) = "eof"
+
+BIdle == /\ shape \in [Ends -> AllShapes] /\ shape["A"] \in ShapesA /\ shape["B"] \in ShapesB
          /\ ep = [e \in Ends |-> [sent |-> 0, wr |-> "open", rd |-> "open", got |-> 0, eofSeen |-> FALSE]]
          /\ cp = [d \in Dirs |-> [pc |-> "read", off |-> 0, n |-> 0, rerr |-> "none", werr |-> FALSE]]
          /\ bmain = "wait"
          /\ rclosed = [e \in Ends |-> FALSE]
-         /\ bhist = IF Emit THEN <<[a |-> "Init", cwA |-> cw["A"], cwB |-> cw["B"]]>> ELSE <<>>
+         /\ bhist = IF Emit THEN <<[a |-> "Init", shA |-> shape["A"], shB |-> shape["B"]]>> ELSE <<>>
 
 BH(step) == IF Emit THEN /\ bhist' = Append(bhist, step) /\ Out(bhist') ELSE bhist' = bhist
 
@@ -112,19 +147,19 @@ BH(step) == IF Emit THEN /\ bhist' = Append(bhist, step) /\ Out(bhist') ELSE bhi
 EpSend(e) == /\ bmain = "wait" /\ ep[e].wr = "open" /\ ep[e].sent < MaxSend
              /\ ep' = [ep EXCEPT ![e].sent = @ + 1]
              /\ BH([a |-> "Send", e |-> e])
-             /\ UNCHANGED <<cw, cp, bmain, rclosed>>
+             /\ UNCHANGED <<shape, cp, bmain, rclosed>>
 EpHalfClose(e) == /\ bmain = "wait" /\ ep[e].wr = "open"
                   /\ ep' = [ep EXCEPT ![e].wr = "shut"]
                   /\ BH([a |-> "HalfClose", e |-> e])
-                  /\ UNCHANGED <<cw, cp, bmain, rclosed>>
+                  /\ UNCHANGED <<shape, cp, bmain, rclosed>>
 EpClose(e) == /\ bmain = "wait" /\ ep[e].rd = "open"
               /\ ep' = [ep EXCEPT ![e].wr = "shut", ![e].rd = "closed"]
               /\ BH([a |-> "Close", e |-> e])
-              /\ UNCHANGED <<cw, cp, bmain, rclosed>>
+              /\ UNCHANGED <<shape, cp, bmain, rclosed>>
 EpError(e) == /\ bmain = "wait" /\ ep[e].rd = "open"
               /\ ep' = [ep EXCEPT ![e].wr = "err", ![e].rd = "closed"]
               /\ BH([a |-> "Error", e |-> e])
-              /\ UNCHANGED <<cw, cp, bmain, rclosed>>
+              /\ UNCHANGED <<shape, cp, bmain, rclosed>>
 EnvB == \E e \in Ends : EpSend(e) \/ EpHalfClose(e) \/ EpClose(e) \/ EpError(e)
 
 \* ---- copier goroutine d: for { nr, readErr := src.Read(buf); ... } ---------------------------
@@ -132,37 +167,39 @@ Avail(d) == ep[Src(d)].sent - cp[d].off
 
 \* src.Read returns nr > 0 (and possibly io.EOF with the last bytes)
 CReadData(d) ==
-  /\ cp[d].pc = "read" /\ ep[Src(d)].wr # "err" /\ Avail(d) > 0
+  /\ cp[d].pc = "read" /\ ep[Src(d)].wr # "err" /\ Avail(d) > 0 /\ ~rclosed[Src(d)]
   /\ \E n \in 1..Avail(d) : \E eof \in {FALSE} \cup (IF EofWithData /\ ep[Src(d)].wr = "shut" /\ n = Avail(d) THEN {TRUE} ELSE {}) :
        /\ cp' = [cp EXCEPT ![d].pc = "write", ![d].n = n, ![d].off = @ + n, ![d].rerr = IF eof THEN "eof" ELSE "none"]
        /\ BH([a |-> "Read", d |-> d, n |-> n, end |-> IF eof THEN "eof" ELSE "none"])
-  /\ UNCHANGED <<cw, ep, bmain, rclosed>>
+  /\ UNCHANGED <<shape, ep, bmain, rclosed>>
 \* src.Read returns (0, io.EOF) or (0, err): leave the loop
 CReadEnd(d) ==
   /\ cp[d].pc = "read"
   /\ \/ ep[Src(d)].wr = "err"
      \/ ep[Src(d)].wr = "shut" /\ Avail(d) = 0
-  /\ LET k == IF ep[Src(d)].wr = "err" THEN "err" ELSE "eof" IN
+     \/ rclosed[Src(d)]                             \* reading a conn the relay has closed itself
+  /\ LET k == IF ep[Src(d)].wr = "err" \/ rclosed[Src(d)] THEN "err" ELSE "eof" IN
        /\ cp' = [cp EXCEPT ![d].pc = "halfclose", ![d].rerr = k]
        /\ BH([a |-> "Read", d |-> d, n |-> 0, end |-> k])
-  /\ UNCHANGED <<cw, ep, bmain, rclosed>>
+  /\ UNCHANGED <<shape, ep, bmain, rclosed>>
 \* dst.Write(buf[:nr]): everything or an error (then leave the loop)
 CWrite(d) ==
   /\ cp[d].pc = "write"
-  /\ IF ep[Dst(d)].rd = "open"
+  /\ IF ep[Dst(d)].rd = "open" /\ ~rclosed[Dst(d)]
        THEN /\ ep' = [ep EXCEPT ![Dst(d)].got = @ + cp[d].n]
             /\ cp' = [cp EXCEPT ![d].n = 0, ![d].pc = IF cp[d].rerr = "none" THEN "read" ELSE "halfclose"]
        ELSE /\ ep' = ep
             /\ cp' = [cp EXCEPT ![d].n = 0, ![d].werr = TRUE, ![d].pc = "halfclose"]
   /\ BH([a |-> "Write", d |-> d])
-  /\ UNCHANGED <<cw, bmain, rclosed>>
-\* tryCloseWrite(dst): *net.TCPConn / CloseWriter -> CloseWrite(); anything else: nothing
+  /\ UNCHANGED <<shape, bmain, rclosed>>
+\* tryCloseWrite(dst): see Effect
 CHalfClose(d) ==
   /\ cp[d].pc = "halfclose"
-  /\ ep' = [ep EXCEPT ![Dst(d)].eofSeen = @ \/ cw[Dst(d)]]
+  /\ ep' = [ep EXCEPT ![Dst(d)].eofSeen = @ \/ Cw(Dst(d))]
+  /\ rclosed' = [rclosed EXCEPT ![Dst(d)] = @ \/ Effect(shape[Dst(d)]) = "kill"]
   /\ cp' = [cp EXCEPT ![d].pc = "done"]
   /\ BH([a |-> "CloseWrite", d |-> d])
-  /\ UNCHANGED <<cw, bmain, rclosed>>
+  /\ UNCHANGED <<shape, bmain>>
 Copier(d) == CReadData(d) \/ CReadEnd(d) \/ CWrite(d) \/ CHalfClose(d)
 
 \* wg.Wait(); connA.Close(); connB.Close(); return
@@ -170,7 +207,7 @@ BMain == /\ bmain = "wait" /\ \A d \in Dirs : cp[d].pc = "done"
          /\ bmain' = "returned"
          /\ rclosed' = [e \in Ends |-> TRUE]
          /\ BH([a |-> "Return"])
-         /\ UNCHANGED <<cw, ep, cp>>
+         /\ UNCHANGED <<shape, ep, cp>>
 
 UFrozen == UNCHANGED uvars
 BNext == (EnvB \/ (\E d \in Dirs : Copier(d)) \/ BMain) /\ UFrozen
@@ -189,13 +226,13 @@ BComplete == \A d \in Dirs : (cp[d].pc \in {"halfclose", "done"} /\ cp[d].rerr =
 \* conn only after BOTH directions have ended: the reverse direction keeps flowing meanwhile
 BReverseKeepsFlowing ==
   /\ \A e \in Ends : rclosed[e] => \A d \in Dirs : cp[d].pc = "done"
-  /\ \A d \in Dirs : (cw[Dst(d)] /\ ep[Dst(d)].eofSeen) => cp[d].pc = "done"
+  /\ \A d \in Dirs : (Cw(Dst(d)) /\ ep[Dst(d)].eofSeen) => cp[d].pc = "done"
   /\ \A d \in Dirs : cp[d].pc \in {"halfclose", "done"} => (cp[d].rerr # "none" \/ cp[d].werr)
 \* ... and a direction never ends unless its own source ended or its own destination failed
 BNoSpuriousEnd == \A d \in Dirs : cp[d].rerr # "none" => ep[Src(d)].wr # "open"
 \* nothing is delivered after the relay's own half-close of that conn
 BMonotone == [][\A e \in Ends : /\ ep'[e].got >= ep[e].got
-                                /\ (ep[e].eofSeen /\ cw[e]) => ep'[e].got = ep[e].got]_bvars
+                                /\ (ep[e].eofSeen /\ Cw(e)) => ep'[e].got = ep[e].got]_bvars
 
 BFair == /\ \A d \in Dirs : WF_vars(Copier(d) /\ UFrozen)
          /\ WF_vars(BMain /\ UFrozen)
@@ -231,23 +268,24 @@ UNone == {<<>>}
 
 Stream == Enc(par.t)
 
-G2Init == [pc |-> "read", buf |-> <<>>, processed |-> 0, pending |-> <<>>, rerr |-> "none", ended |-> FALSE, cont |-> "none"]
+G2Init == [pc |-> "read", buf |-> <<>>, stale |-> <<>>, processed |-> 0, pending |-> <<>>, rerr |-> "none", ended |-> FALSE, cont |-> "none"]
 G1Init == [pc |-> "read", mem |-> <<>>, pos |-> 0, dg |-> 0, serr |-> "none"]
 NoWrite == [by |-> "none", n |-> 0, cont |-> "none"]
 
 URest == /\ tpos = 0
          /\ g2 = G2Init
+         /\ wq = <<>>
          /\ udpGot = <<>>
          /\ g1 = G1Init
          /\ lock = "free" /\ tw = NoWrite
          /\ usent = 0 /\ upos = 0 /\ tunGot = <<>>
          /\ timerOn = TRUE /\ sockClosed = FALSE /\ tunHalfClosed = FALSE
-         /\ umain = "wait" /\ devSpin = FALSE /\ devBlocked = FALSE /\ devAlias = FALSE
+         /\ umain = "wait" /\ devSpin = FALSE /\ devBlocked = FALSE /\ devAlias = FALSE /\ devDropped = FALSE
 
 UIdle == /\ par = [t |-> <<>>, u |-> <<>>, cut |-> 0, how |-> "eof", chunk |-> 0, pace |-> "burst"]
          /\ URest
 
-UInit == /\ BIdle /\ cw = [e \in Ends |-> TRUE]
+UInit == /\ BIdle /\ shape = [e \in Ends |-> "direct-cw"]
          /\ \E t \in TSeqs : \E u \in USeqs : \E c \in (IF Cuts = "all" THEN 0..Len(Enc(t)) ELSE {Len(Enc(t))}) : \E h \in {"eof", "err"} :
             \E ch \in Chunks : \E pc \in Paces :
               par = [t |-> t, u |-> u, cut |-> c, how |-> h, chunk |-> ch, pace |-> pc]
@@ -262,6 +300,8 @@ TunBroken == par.how = "err" /\ g2.ended
 \* ---- g2: tunnel -> UDP socket (bulk de-framing reader) ---------------------------------------
 \* pendingPackets reference readBuf (zero copy): what is written is what readBuf holds when the
 \* write happens
+Mem == g2.buf \o g2.stale        \* the readBuf array as far as anybody can still see it
+Drop(q, n) == SubSeq(q, n + 1, Len(q))
 Contents(pend, buf) == [i \in 1..Len(pend) |-> SubSeq(buf, pend[i][1] + 1, pend[i][1] + pend[i][2])]
 FlushOK == ~sockClosed
 
@@ -274,7 +314,7 @@ G2Read ==
        ELSE LET avail == par.cut - tpos IN
             IF avail > 0
               THEN \E n \in (IF par.chunk = 0 THEN 1..avail ELSE {Min(par.chunk, avail)}) :
-                     /\ g2' = [g2 EXCEPT !.buf = @ \o SubSeq(Stream, tpos + 1, tpos + n), !.pc = "inner", !.processed = 0]
+                     /\ g2' = [g2 EXCEPT !.buf = @ \o SubSeq(Stream, tpos + 1, tpos + n), !.stale = Drop(@, n), !.pc = "inner", !.processed = 0]
                      /\ tpos' = tpos + n
               ELSE \* (0, io.EOF) or (0, err)
                    /\ g2' = [g2 EXCEPT !.rerr = IF par.how = "err" THEN "err" ELSE @,
@@ -282,7 +322,7 @@ G2Read ==
                                         !.processed = 0,
                                         !.pc = IF Len(g2.buf) = 0 THEN "lastflush" ELSE "inner"]
                    /\ UNCHANGED tpos
-  /\ UNCHANGED <<udpGot, sockClosed, devSpin, devBlocked>>
+  /\ UNCHANGED <<wq, udpGot, sockClosed, devSpin, devBlocked>>
 
 \* one iteration of: for buffered-processed >= 2 { ... }
 G2Inner ==
@@ -301,7 +341,7 @@ G2Inner ==
                                       !.pc = IF Len(pend) >= BatchSize THEN "flush" ELSE "inner",
                                       !.cont = IF Len(pend) >= BatchSize THEN "inner" ELSE @]
        ELSE g2' = [g2 EXCEPT !.pc = "after"]
-  /\ UNCHANGED <<tpos, udpGot, sockClosed, devSpin, devBlocked>>
+  /\ UNCHANGED <<tpos, wq, udpGot, sockClosed, devSpin, devBlocked>>
 
 \* after the inner loop: "must flush before moving the buffer" (pending references readBuf)
 G2After ==
@@ -309,17 +349,25 @@ G2After ==
   /\ g2' = IF Len(g2.pending) > 0 /\ g2.processed > 0
              THEN [g2 EXCEPT !.pc = "flush", !.cont = "compact"]
              ELSE [g2 EXCEPT !.pc = "compact"]
-  /\ UNCHANGED <<tpos, udpGot, sockClosed, devSpin, devBlocked>>
+  /\ UNCHANGED <<tpos, wq, udpGot, sockClosed, devSpin, devBlocked>>
 
 \* flush(): the UDP socket write(s) of all pending datagrams, in order - a separate, possibly
 \* slow step.  cont says where flush() was called from.
+\* On a plain socket the datagrams are on the wire when Write returns; on a UDPVirtualConn
+\* (SockQueue) Write copies the datagram into writeChan and SockSend puts it on the wire later.
 G2UdpWriteDone ==
   /\ g2.pc = "flush"
   /\ IF Len(g2.pending) = 0 \/ FlushOK
-       THEN /\ udpGot' = udpGot \o Contents(g2.pending, g2.buf)
+       THEN /\ IF SockQueue
+                 THEN /\ wq' = wq \o [i \in 1..Len(g2.pending) |->
+                                        [o |-> g2.pending[i][1], n |-> g2.pending[i][2],
+                                         data |-> IF DevQueueRefs THEN <<>> ELSE Contents(g2.pending, g2.buf)[i]]]
+                      /\ UNCHANGED udpGot
+                 ELSE /\ udpGot' = udpGot \o Contents(g2.pending, g2.buf)
+                      /\ UNCHANGED wq
             /\ g2' = [g2 EXCEPT !.pending = <<>>, !.cont = "none",
                                 !.pc = CASE g2.cont = "inner" -> "inner" [] g2.cont = "compact" -> "compact" [] OTHER -> "exit"]
-       ELSE /\ UNCHANGED udpGot
+       ELSE /\ UNCHANGED <<udpGot, wq>>
             /\ g2' = [g2 EXCEPT !.cont = "none", !.pc = "exit",
                                 !.rerr = IF g2.cont = "return" THEN @ ELSE IF g2.cont = "last" /\ @ # "none" THEN @ ELSE "err"]
   /\ UNCHANGED <<tpos, sockClosed, devSpin, devBlocked>>
@@ -332,19 +380,19 @@ G2Compact ==
   /\ g2.pc = "compact"
   /\ LET rest == SubSeq(g2.buf, g2.processed + 1, Len(g2.buf)) IN
      IF g2.ended /\ ~DevSpin
-       THEN /\ g2' = [g2 EXCEPT !.buf = rest, !.processed = 0, !.pc = "lastflush",
+       THEN /\ g2' = [g2 EXCEPT !.buf = rest, !.stale = IF DevQueueRefs THEN Drop(Mem, Len(rest)) ELSE <<>>, !.processed = 0, !.pc = "lastflush",
                                 \* a left-over partial record is reported as io.ErrUnexpectedEOF
                                 !.rerr = IF Len(rest) > 0 /\ @ = "none" THEN "trunc" ELSE @]
             /\ UNCHANGED devSpin
-       ELSE /\ g2' = [g2 EXCEPT !.buf = rest, !.processed = 0, !.pc = "read"]
+       ELSE /\ g2' = [g2 EXCEPT !.buf = rest, !.stale = IF DevQueueRefs THEN Drop(Mem, Len(rest)) ELSE <<>>, !.processed = 0, !.pc = "read"]
             /\ devSpin' = (devSpin \/ (g2.ended /\ Len(rest) > 0))
-  /\ UNCHANGED <<tpos, udpGot, sockClosed, devBlocked>>
+  /\ UNCHANGED <<tpos, wq, udpGot, sockClosed, devBlocked>>
 
 \* flush the remaining datagrams; break
 G2LastFlush ==
   /\ g2.pc = "lastflush"
   /\ g2' = [g2 EXCEPT !.pc = "flush", !.cont = "last"]
-  /\ UNCHANGED <<tpos, udpGot, sockClosed, devSpin, devBlocked>>
+  /\ UNCHANGED <<tpos, wq, udpGot, sockClosed, devSpin, devBlocked>>
 
 \* goroutine exit
 \*   code as found  : nothing; g1 may stay blocked in udpConn.Read forever
@@ -357,10 +405,27 @@ G2Exit ==
             /\ UNCHANGED sockClosed
        ELSE /\ sockClosed' = TRUE
             /\ UNCHANGED devBlocked
-  /\ UNCHANGED <<tpos, udpGot, devSpin>>
+  /\ UNCHANGED <<tpos, wq, udpGot, devSpin>>
 
 G2 == (G2Read \/ G2Inner \/ G2After \/ G2UdpWriteDone \/ G2Compact \/ G2LastFlush \/ G2Exit)
-      /\ UNCHANGED <<par, g1, lock, tw, usent, upos, tunGot, timerOn, tunHalfClosed, umain, devAlias>>
+      /\ UNCHANGED <<par, g1, lock, tw, usent, upos, tunGot, timerOn, tunHalfClosed, umain, devAlias, devDropped>>
+
+\* UDPVirtualConn.writeLoop: take the next queued datagram and WriteTo it on the socket.
+\*   the code          : the queue holds a copy made by Write
+\*   DevQueueRefs      : the queue holds the caller's slice - the wire gets what readBuf holds NOW
+\*   after Close()     : patched (C12-3): what was accepted before the close is still sent;
+\*                       DevDropOnClose (as found): select may take closeCh first - the rest is abandoned
+SockSend ==
+  /\ Len(wq) > 0
+  /\ LET it == Head(wq) IN
+     udpGot' = Append(udpGot, IF DevQueueRefs THEN SubSeq(Mem \o [i \in 1..it.n |-> 0], it.o + 1, it.o + it.n) ELSE it.data)
+  /\ wq' = Tail(wq)
+  /\ UNCHANGED <<par, tpos, g2, g1, lock, tw, usent, upos, tunGot, timerOn, sockClosed, tunHalfClosed, umain, devSpin, devBlocked, devAlias, devDropped>>
+SockLoopExit ==
+  /\ DevDropOnClose /\ sockClosed /\ Len(wq) > 0
+  /\ wq' = <<>>
+  /\ devDropped' = TRUE
+  /\ UNCHANGED <<par, tpos, g2, udpGot, g1, lock, tw, usent, upos, tunGot, timerOn, sockClosed, tunHalfClosed, umain, devSpin, devBlocked, devAlias>>
 
 \* ---- g1: UDP socket -> tunnel (length-prefix batching writer) --------------------------------
 Batch == SubSeq(g1.mem, 1, g1.pos)
@@ -435,7 +500,7 @@ G1Closing ==
   /\ g1' = [g1 EXCEPT !.pc = "done"]
   /\ UNCHANGED <<upos, lock, tw, tunGot, devAlias>>
 G1 == (G1Read \/ G1Lock \/ G1A1 \/ G1A2 \/ G1A3 \/ G1F1 \/ G1F2 \/ G1Closing)
-      /\ UNCHANGED <<par, tpos, g2, udpGot, usent, sockClosed, umain, devSpin, devBlocked>>
+      /\ UNCHANGED <<par, tpos, g2, wq, udpGot, usent, sockClosed, umain, devSpin, devBlocked, devDropped>>
 
 \* the 20 ms ticker goroutine:  batchMu.Lock(); flushLocked(); batchMu.Unlock()  (error ignored)
 \*   the code            : the tunnel Write happens while batchMu is held
@@ -446,7 +511,7 @@ TimerTake ==
   /\ IF DevAliasFlush
        THEN g1' = [g1 EXCEPT !.pos = 0] /\ UNCHANGED lock
        ELSE lock' = "timer" /\ UNCHANGED g1
-  /\ UNCHANGED <<par, tpos, g2, udpGot, usent, upos, tunGot, timerOn, sockClosed, tunHalfClosed, umain, devSpin, devBlocked, devAlias>>
+  /\ UNCHANGED <<par, tpos, g2, wq, udpGot, usent, upos, tunGot, timerOn, sockClosed, tunHalfClosed, umain, devSpin, devBlocked, devAlias, devDropped>>
 
 \* the tunnel Write in progress completes (it may be arbitrarily slow: an independent action).
 \* The writer hands a slice of batchBuf to Write, so the bytes that reach the tunnel are the
@@ -468,23 +533,23 @@ TunnelWriteDone ==
                    [] OTHER          -> /\ g1' = [g1 EXCEPT !.serr = "err", !.pc = "f2"]
                                         /\ UNCHANGED lock
   /\ tw' = NoWrite
-  /\ UNCHANGED <<par, tpos, g2, udpGot, usent, upos, timerOn, sockClosed, tunHalfClosed, umain, devSpin, devBlocked, devAlias>>
+  /\ UNCHANGED <<par, tpos, g2, wq, udpGot, usent, upos, timerOn, sockClosed, tunHalfClosed, umain, devSpin, devBlocked, devAlias, devDropped>>
 
 \* environment: the UDP peer sends its next datagram
 USend ==
   /\ umain = "wait" /\ usent < Len(par.u)
   /\ usent' = usent + 1
-  /\ UNCHANGED <<par, tpos, g2, udpGot, g1, lock, tw, upos, tunGot, timerOn, sockClosed, tunHalfClosed, umain, devSpin, devBlocked, devAlias>>
+  /\ UNCHANGED <<par, tpos, g2, wq, udpGot, g1, lock, tw, upos, tunGot, timerOn, sockClosed, tunHalfClosed, umain, devSpin, devBlocked, devAlias, devDropped>>
 
 \* wg.Wait(); udpConn.Close(); tunnelConn.Close(); return
 UMain ==
   /\ umain = "wait" /\ g1.pc = "done" /\ g2.pc = "done"
   /\ umain' = "returned"
   /\ sockClosed' = TRUE
-  /\ UNCHANGED <<par, tpos, g2, udpGot, g1, lock, tw, usent, upos, tunGot, timerOn, tunHalfClosed, devSpin, devBlocked, devAlias>>
+  /\ UNCHANGED <<par, tpos, g2, wq, udpGot, g1, lock, tw, usent, upos, tunGot, timerOn, tunHalfClosed, devSpin, devBlocked, devAlias, devDropped>>
 
 BFrozen == UNCHANGED bvars
-UNext == (G1 \/ G2 \/ TimerTake \/ TunnelWriteDone \/ USend \/ UMain) /\ BFrozen
+UNext == (G1 \/ G2 \/ TimerTake \/ TunnelWriteDone \/ SockSend \/ SockLoopExit \/ USend \/ UMain) /\ BFrozen
 
 \* ---- properties -----------------------------------------------------------------------------
 UTypeOK == /\ g2.pc \in {"read", "inner", "after", "flush", "compact", "lastflush", "exit", "done"}
@@ -492,11 +557,15 @@ UTypeOK == /\ g2.pc \in {"read", "inner", "after", "flush", "compact", "lastflus
            /\ lock \in {"free", "g1", "timer"} /\ tw.by \in {"none", "g1", "timer"}
            /\ tpos \in 0..par.cut /\ upos \in 0..usent /\ usent \in 0..Len(par.u)
 \* datagram boundaries, contents and order are preserved; nothing beyond the cut is invented
-UDatagrams == /\ Len(udpGot) <= Whole(par.t, par.cut)
+UDatagrams == /\ Len(udpGot) + Len(wq) <= Whole(par.t, par.cut)
               /\ \A i \in 1..Len(udpGot) : udpGot[i] = Dg(i, par.t[i])
 \* every datagram whose record lies completely before the cut has been delivered when g2 ends
-UComplete == (g2.pc \in {"exit", "done"} /\ g2.rerr # "err") => Len(udpGot) = Whole(par.t, par.cut)
-UCompleteAny == g2.pc \in {"exit", "done"} => Len(udpGot) = Whole(par.t, par.cut)
+\* (on the wire or still queued in the virtual conn; nothing is abandoned unless DevDropOnClose)
+UComplete == (g2.pc \in {"exit", "done"} /\ g2.rerr # "err" /\ ~devDropped) => Len(udpGot) + Len(wq) = Whole(par.t, par.cut)
+UCompleteAny == (g2.pc \in {"exit", "done"} /\ ~devDropped) => Len(udpGot) + Len(wq) = Whole(par.t, par.cut)
+\* ... and what is queued does reach the wire
+UQueueDrains == <>[](Len(wq) = 0)
+UNoDrop == ~devDropped
 \* the bytes handed to the tunnel are the encoded datagrams, whole records only, in order, for
 \* datagrams actually read from the socket - however slow the tunnel Write is
 UEncoded == \E k \in 0..upos : tunGot = EncUpTo(par.u, k)
@@ -513,8 +582,8 @@ UDelivMonotone == [][Len(udpGot') >= Len(udpGot) /\ Len(tunGot') >= Len(tunGot)]
 \* fairness for batchMu.Lock() of g1: sync.Mutex is starvation-free, the ticker (which re-takes
 \* the lock every 20 ms and, on a failed tunnel, never empties the batch) cannot lock g1 out for ever
 UFair == /\ WF_vars(G1 /\ BFrozen) /\ WF_vars(G2 /\ BFrozen) /\ WF_vars(TimerTake /\ BFrozen)
-         /\ WF_vars(TunnelWriteDone /\ BFrozen) /\ WF_vars(UMain /\ BFrozen)
-         /\ SF_vars(G1Lock /\ UNCHANGED <<par, tpos, g2, udpGot, usent, sockClosed, umain, devSpin, devBlocked>> /\ BFrozen)
+         /\ WF_vars(TunnelWriteDone /\ BFrozen) /\ WF_vars(UMain /\ BFrozen) /\ WF_vars(SockSend /\ BFrozen)
+         /\ SF_vars(G1Lock /\ UNCHANGED <<par, tpos, g2, wq, udpGot, usent, sockClosed, umain, devSpin, devBlocked, devDropped>> /\ BFrozen)
 \* liveness: the relay returns (the tunnel stream always reaches its cut: EOF or failure)
 UTermination == <>(umain = "returned")
 \* the same, excusing exactly the two known deviations
